@@ -457,6 +457,22 @@ pub fn run() -> SimResult {
                                     ma2.extend(dm);
                                 }
                             }
+                            13 | 14 if chance(1, 8) => {
+                                // a range that reaches past the end: Vec rejects it (panic) and so must the array,
+                                // without changing anything (the pool comparison after the step checks that)
+                                let a = draw(len as u32 + 2) as usize;
+                                let b = len + 1 + draw(3) as usize;
+                                trace::bump(C::dom_rejected_ops);
+                                if op == 13 {
+                                    tr!("{} #{}{} drain {}..{} of {} (out of range)", what, hi, gen::path_str(&p), a, b, len);
+                                    let r = libcall_may_panic(|| arr!(&mut pool[hi].v).drain(a..b).count())?;
+                                    expect_panic(r, true, &what, "Array::drain")?;
+                                } else {
+                                    tr!("{} #{}{} extend_from_within {}..{} of {} (out of range)", what, hi, gen::path_str(&p), a, b, len);
+                                    let r = libcall_may_panic(|| arr!(&mut pool[hi].v).extend_from_within(a..b))?;
+                                    expect_panic(r, true, &what, "Array::extend_from_within")?;
+                                }
+                            }
                             13 => {
                                 let a = draw(len as u32 + 1) as usize;
                                 let b = a + draw((len - a) as u32 + 1) as usize;
